@@ -1035,7 +1035,11 @@ def gen_dag(rng, ntasks, p_hard=0.3, p_soft=0.15):
     # index order
     order = names[:]
     rng.shuffle(order)
-    return {'tasks': order, 'hard': hard, 'soft': soft}
+    case = {'tasks': order, 'hard': hard, 'soft': soft}
+    if rng.random() < 0.1:
+        # task objects whose truth value is false
+        case['falsy'] = rng.sample(names, rng.randint(1, min(2, ntasks)))
+    return case
 
 
 def gen_wide(rng, workers, per_worker=101):
